@@ -226,6 +226,12 @@ func (ex *Exec) applyContract(st *State, c *Contract, args []*Val, sig *types.Si
 	if c.Kind == "extern" || c.Kind == "trusted" {
 		ex.usedExterns[c.Key] = true
 	}
+	if c.Kind == "func" {
+		if ex.callsOf[ex.topKey] == nil {
+			ex.callsOf[ex.topKey] = map[string]bool{}
+		}
+		ex.callsOf[ex.topKey][c.Key] = true
+	}
 	isFT := c.Kind == "functype"
 	names := ex.contractParamNames(c, sig, len(args), isFT)
 	if len(names) != len(args) {
@@ -264,6 +270,19 @@ func (ex *Exec) applyContract(st *State, c *Contract, args []*Val, sig *types.Si
 		g := env.evalBool(r)
 		ex.oblige(st, "call", fmt.Sprintf("%s@%s:pre:%s", calleeShort, site, clauseLabel(r, k)), g, ex.clauseTags(r, ex.top.Tags), "precondition of "+calleeShort+": "+r.Src, pos)
 		st.assume(g)
+	}
+	// a function-typed parameter of the function under verification is invoked: its contract may promise
+	// that the heap is still as at entry except for the `stable` targets
+	if isFT && len(c.Stable) > 0 && st.frame.parent == nil && strings.HasPrefix(c.Key, "functype:"+ex.topKey+":") {
+		eenv := *env
+		eenv.cur = entryView{st}
+		ex.frameObligations(st, ex.resolveTargets(&eenv, c.Stable), ex.top.Tags, "stable:"+strings.TrimPrefix(c.Key, "functype:"+ex.topKey+":")+"@"+site, "when the function value is invoked only the stable targets differ from the entry state in ")
+	}
+	// closures with a contract of their own passed as arguments: their preconditions must hold when the
+	// callee invokes them, i.e. in this state with the callee's stable targets havocked and the parameter
+	// contract's preconditions assumed
+	if c.Kind == "func" {
+		ex.checkClosureArgs(st, c, names, args, vars, pre, preNext, pkg, calleeShort, site, pos)
 	}
 	// may the callee panic?
 	if c.MayPanic || len(c.Panics) > 0 {
@@ -345,6 +364,66 @@ func (ex *Exec) applyContract(st *State, c *Contract, args []*Val, sig *types.Si
 			Desc: "the assumed contract of " + calleeShort + " is consistent with the state at this call", Trace: append([]string(nil), st.trace...), Inst: ex.oblCount[name]})
 	}
 	return res
+}
+
+func (ex *Exec) checkClosureArgs(st *State, c *Contract, names []string, args []*Val, vars map[string]*Val, pre *snapshot, preNext Term, pkg *types.Package, calleeShort, site string, pos token.Pos) {
+	for k, a := range args {
+		if a == nil || a.Clo == nil {
+			continue
+		}
+		cc := ex.ct.Funcs[a.Clo.Fn.String()]
+		if cc == nil || len(cc.Requires) == 0 {
+			continue
+		}
+		ft := ex.ct.Funcs["functype:"+c.Key+":"+names[k]]
+		if ft == nil || len(ft.Stable) == 0 {
+			ex.oblige(st, "call", fmt.Sprintf("%s@%s:closure-pre:%s", calleeShort, site, names[k]), tFalse, ex.top.Tags,
+				"a closure with preconditions is passed as "+names[k]+" but the parameter's contract declares no stable state", pos)
+			continue
+		}
+		st2 := st.clone()
+		henv := &SpecEnv{ex: ex, st: st2, vars: vars, cur: pre, old: pre, pkg: pkg, nextOld: preNext}
+		for _, t := range ex.resolveTargets(henv, ft.Stable) {
+			ex.havocTarget(st2, t)
+		}
+		fvars := map[string]*Val{}
+		for n, v := range vars {
+			fvars[n] = v
+		}
+		fvars["self"] = a
+		fenv := &SpecEnv{ex: ex, st: st2, vars: fvars, cur: st2, old: pre, pkg: ex.ld.typesPkg(ft.Pkg), nextOld: preNext, entry: pre}
+		for _, r := range ft.Requires {
+			st2.assume(fenv.evalBool(r))
+		}
+		cv := map[string]*Val{}
+		for j, fv := range a.Clo.Fn.FreeVars {
+			if j >= len(a.Clo.Bindings) {
+				break
+			}
+			b := a.Clo.Bindings[j]
+			pt, isPtr := fv.Type().Underlying().(*types.Pointer)
+			switch {
+			case b.Addr != nil:
+				cv[fv.Name()] = ex.loadAddr(st2, b.Addr)
+			case isPtr:
+				if _, isS := structOf(pt.Elem()); isS {
+					cv[fv.Name()] = ex.loadStruct(st2, st2, b.T, pt.Elem())
+				} else {
+					cv[fv.Name()] = b
+				}
+			default:
+				cv[fv.Name()] = b
+			}
+		}
+		for _, p := range a.Clo.Fn.Params {
+			cv[p.Name()] = ex.freshVal(st2, "cloarg."+p.Name(), p.Type())
+		}
+		cenv := &SpecEnv{ex: ex, st: st2, vars: cv, cur: st2, old: st2.snap(), pkg: a.Clo.Fn.Pkg.Pkg, nextOld: st2.next}
+		for i, r := range cc.Requires {
+			ex.oblige(st2, "call", fmt.Sprintf("%s@%s:closure-pre:%s:%s", calleeShort, site, names[k], clauseLabel(r, i)), cenv.evalBool(r), ex.clauseTags(r, ex.top.Tags),
+				"precondition of the closure passed as "+names[k]+" holds when "+calleeShort+" invokes it: "+r.Src, pos)
+		}
+	}
 }
 
 func (ex *Exec) topPanicsAllowed(st *State) Term {
